@@ -2,6 +2,7 @@ import FqModel.Total
 import FqModel.Total2
 import Proofs.C13
 import Proofs.C13b
+import Proofs.C13c
 /-!
   C13 — "every function fq adds is total over jq values": property theorems about the models
   of FqModel/Total.lean.  Helper lemmas: Proofs/C13.lean.
@@ -20,7 +21,11 @@ import Proofs.C13b
      (second batch, FqModel/Total2.lean) from_hex · to_hex / _to_base64 / _to_hash / _from_strencoding /
      nal_unescape over ToBitReader · _to_strencoding · from_urlencode / from_urlpath / from_urlquery ·
      to_urlquery / to_url · _to_csv · _query_fromstring's error position · _stdio_read / _stdio_write /
-     _stdio_info.
+     _stdio_info ·
+     (third part, FqModel/Total3.lean: Go's int is 64 bit and wraps) `_tobits` to its end — pad product,
+     zero-pad reader, the int64 sum of NewMultiReader — for EVERY unit / pad_to_units / length; Binary
+     index / slice with the range start for every int64 length; the display_bytes·8 / line_bytes·8
+     arithmetic of dump.go for every display_bytes up to 2^63-1.
   Found by this check and since fixed in /repo (`decide` witnesses about the old code kept):
      `_tobits({unit:0})` divided by zero; `tojson({indent:-(2^62+1)})` wrapped around to a huge
      depth; display options with a huge line_bytes never finished / exhausted memory;
@@ -638,7 +643,7 @@ theorem clampIndex_range (i lo hi : Int) (h : lo ≤ hi) :
 
 /-- `.[i]` on a binary never faults and never even asks for bits outside the binary: for every
     index (negative, huge, saturated) the result is null or a range inside 0..len -/
-theorem bin_index_in_range (len unit i : Int) (hu : 0 < unit) (hl : 0 ≤ len) (hsz : len < 4611686018427387904) :
+theorem bin_index_in_range (len unit i : Int) (hu : 0 < unit) (hl : 0 ≤ len) (hsz : len ≤ 9223372036854775807) :
     binIndex len unit i = .ok none ∨
     ∃ s, binIndex len unit i = .ok (some (s, unit)) ∧ 0 ≤ s ∧ s + unit ≤ len := by
   unfold binIndex
@@ -669,12 +674,12 @@ theorem bin_index_in_range (len unit i : Int) (hu : 0 < unit) (hl : 0 ≤ len) (
         simp; omega
       simp [hneg, hge, hw, rangeReq, hr, Outcome.bind]
 
-theorem bin_index_total (len unit i : Int) (hu : 0 < unit) (hl : 0 ≤ len) (hsz : len < 4611686018427387904) :
+theorem bin_index_total (len unit i : Int) (hu : 0 < unit) (hl : 0 ≤ len) (hsz : len ≤ 9223372036854775807) :
     (binIndex len unit i).noFault = true := by
   rcases bin_index_in_range len unit i hu hl hsz with h | ⟨s, h, _⟩ <;> rw [h] <;> rfl
 
 /-- `.[s:e]` on a binary: every pair of bounds yields a range inside the binary -/
-theorem bin_slice_in_range (len unit s e : Int) (hu : 0 < unit) (hl : 0 ≤ len) (hsz : len < 4611686018427387904) :
+theorem bin_slice_in_range (len unit s e : Int) (hu : 0 < unit) (hl : 0 ≤ len) (hsz : len ≤ 9223372036854775807) :
     ∃ st n, binSlice len unit s e = .ok (st, n) ∧ 0 ≤ st ∧ 0 ≤ n ∧ st + n ≤ len := by
   unfold binSlice
   simp only
@@ -1094,5 +1099,176 @@ example : toStrEncoding (.str [97]) (.obj [("encoding", .str [85, 84, 70, 56])])
 example : stdioReadCall (.str [115, 116, 100, 105, 110]) (.int 16) true 3 = .ok 3 ∧
     stdioReadCall (.str [115, 116, 100, 105, 110]) (.int (-1)) true 3 = .err "read-length" ∧
     stdioReadCall (.str [120]) (.int 1) true 0 = .err "unknown-fd" := by decide
+
+/-! ## third part (FqModel/Total3.lean): Go's `int` is 64 bit and wraps
+
+    Every product, sum and difference of user-supplied integers below is the Go operation reduced
+    into [-2^63, 2^63) — the theorems quantify over ALL integers, so in particular over the values
+    at which a product wraps to 0 (k·2^61 for a factor 8), to MinInt64 (2^60) or changes sign. -/
+
+/-- `wrap64` really is reduction modulo 2^64 into the int64 range -/
+theorem wrap64_spec (x : Int) :
+    -9223372036854775808 ≤ wrap64 x ∧ wrap64 x ≤ 9223372036854775807 ∧ (wrap64 x - x) % 18446744073709551616 = 0 ∧
+    (-9223372036854775808 ≤ x → x ≤ 9223372036854775807 → wrap64 x = x) := by
+  refine ⟨(wrap64_range x).1, (wrap64_range x).2, ?_, wrap64_id x⟩
+  unfold wrap64 minInt64 two64; omega
+
+/-- which pad_to_units make `8 * pad_to_units` vanish in a Go int: exactly the multiples of 2^61 -/
+theorem mul8_wraps_to_zero_iff (p : Int) : goMul 8 p = 0 ↔ p % 2305843009213693952 = 0 :=
+  wrap64_mul8_eq_zero_iff p
+
+/-- `_tobits` from the unit check to the returned binary (pad product, both `%`, the zero-pad
+    reader, NewMultiReader's int64 sum, bitiox.Len) never faults: for every unit, every
+    pad_to_units (negative, huge, k·2^61, k·2^60), every input length, with and without keep_range -/
+theorem tobits_full_total (len : Int) (o : ToBitsOpts) (keep : Bool) : (toBitsFull len o keep).noFault = true :=
+  toBitsFullWith_noFault tobitsPad tobitsPad_noFault len o keep
+
+/-- when `_tobits` answers with a binary its length is the input length plus a NON-NEGATIVE pad and
+    nothing has wrapped (a pad that wrapped negative, or a sum beyond 2^63-1, is an error value) -/
+theorem tobits_result_length (len : Int) (o : ToBitsOpts) (res : BinRes) (hl0 : 0 ≤ len) (hl : len ≤ 9223372036854775807)
+    (h : toBitsFull len o false = .ok res) :
+    ∃ pad, 0 ≤ pad ∧ res = ⟨len + pad, o.unit, 0⟩ ∧ len + pad ≤ 9223372036854775807 ∧ (o.unit = 1 ∨ o.unit = 8) :=
+  toBitsFull_len_spec len o res hl0 hl h
+
+/-- a pad that does not overflow is HONOURED: the result is the input padded up to the next multiple
+    of unit·pad_to_units -/
+theorem tobits_pad_honoured (len unit p : Int) (hu : unit = 1 ∨ unit = 8) (hp : 0 < p)
+    (hP : unit * p ≤ 9223372036854775807) (hl0 : 0 ≤ len) (hl : len + unit * p ≤ 9223372036854775807) :
+    ∃ L, toBitsFull len ⟨unit, p⟩ false = .ok ⟨L, unit, 0⟩ ∧ L % (unit * p) = 0 ∧ len ≤ L ∧ L < len + unit * p :=
+  toBitsFull_honoured len unit p hu hp hP hl0 hl
+
+/-- seeded change S5-C13-1 ("pad = unit; if pad_to_units > 0 { pad *= pad_to_units }"): for unit 8
+    it ends fq with `integer divide by zero` for EXACTLY the positive multiples of 2^61 — and for
+    no other pad_to_units, which is why neither the suite nor the old boundary pool saw it -/
+theorem tobits_seeded_panics_iff (len p : Int) (keep : Bool) :
+    (toBitsFullSeeded len ⟨8, p⟩ keep).isPanic = true ↔ (0 < p ∧ p % 2305843009213693952 = 0) :=
+  toBitsFullSeeded_panics_iff len p keep
+
+/-- `"abc" | tobytes(2305843009213693952)` (2^61), 2^62, 3·2^61: divide by zero in the seeded
+    variant; the code as it is pads to whole bytes (pad 0 for 24 bits) -/
+theorem tobits_seeded_witness :
+    toBitsFullSeeded 24 ⟨8, 2305843009213693952⟩ false = .panic "runtime error: integer divide by zero" ∧
+    toBitsFullSeeded 24 ⟨8, 4611686018427387904⟩ false = .panic "runtime error: integer divide by zero" ∧
+    toBitsFullSeeded 24 ⟨8, 6917529027641081856⟩ true = .panic "runtime error: integer divide by zero" ∧
+    toBitsFull 24 ⟨8, 2305843009213693952⟩ false = .ok ⟨24, 8, 0⟩ ∧
+    toBitsFull 21 ⟨8, 4611686018427387904⟩ false = .ok ⟨24, 8, 0⟩ ∧
+    toBitsFullSeeded 24 ⟨8, 1152921504606846976⟩ false = toBitsFull 24 ⟨8, 1152921504606846976⟩ false ∧
+    toBitsFullSeeded 24 ⟨8, 5⟩ false = .ok ⟨40, 8, 0⟩ := by
+  decide
+
+theorem tobits_seeded_not_total : ¬ ∀ len o keep, (toBitsFullSeeded len o keep).noFault = true := by
+  intro h
+  have := h 24 ⟨8, 2305843009213693952⟩ false
+  revert this
+  decide
+
+/-- with unit 1 (tobits/1) no Go int makes the product vanish: the seeded pad arithmetic is
+    fault-free there, for every pad_to_units -/
+theorem tobits_seeded_unit1_total (p len : Int) (h1 : -9223372036854775808 ≤ p) (h2 : p ≤ 9223372036854775807) :
+    (tobitsPadSeeded 1 p len).noFault = true :=
+  tobitsPadSeeded_unit1_noFault p len h1 h2
+
+/-- a second variant of the same mechanism (zero test BEFORE the multiplication) dies for the
+    negative multiples of 2^61 too -/
+theorem tobits_test_first_panics_iff (len p : Int) (keep : Bool) :
+    (toBitsFullTestFirst len ⟨8, p⟩ keep).isPanic = true ↔ (p ≠ 0 ∧ p % 2305843009213693952 = 0) :=
+  toBitsFullTestFirst_panics_iff len p keep
+
+/-- what the wrap-around does to pads that do NOT fit, on the code as it is: 2^60 units of 8 bits
+    are 2^63 bits = MinInt64 — the pad comes out as 2^63-24, the reader sum wraps negative, the
+    result is an error value ("invalid seek offset" on the real binary); a negative pad_to_units
+    gives a negative pad, which the zero reader rejects; keep_range returns the pad unused -/
+theorem tobits_wrapped_pads_are_errors :
+    tobitsPad 8 1152921504606846976 24 = .ok 9223372036854775784 ∧
+    toBitsFull 24 ⟨8, 1152921504606846976⟩ false = .err "offset" ∧
+    toBitsFull 24 ⟨8, 1152921504606846977⟩ false = .err "offset" ∧
+    toBitsFull 3 ⟨8, -1⟩ false = .err "offset" ∧ toBitsFull 3 ⟨8, -1⟩ true = .ok ⟨3, 8, -3⟩ ∧
+    toBitsFull 24 ⟨8, 9223372036854775807⟩ false = .ok ⟨24, 8, 0⟩ ∧
+    toBitsFull 5 ⟨1, 9223372036854775807⟩ false = .ok ⟨9223372036854775807, 1, 0⟩ ∧
+    toBitsFull 5 ⟨1, 4611686018427387904⟩ false = .ok ⟨4611686018427387904, 1, 0⟩ := by
+  decide
+
+/-- the same mechanism in another function: a `_stdio_read` length check made on `l * 8` that
+    rejects a product that wrapped NEGATIVE still lets 2^61 (product 0) and 2^61+1 (product 8)
+    through to `make([]byte, l)`; the check as it is compares `l` itself (stdio_read_total) -/
+theorem stdio_read_bits_guard_wraps :
+    (stdioReadBitsGuard true 2305843009213693952).isPanic = true ∧
+    (stdioReadBitsGuard true 2305843009213693953).isPanic = true ∧
+    (stdioReadBitsGuard true 6917529027641081856).isPanic = true ∧
+    stdioReadBitsGuard true 9223372036854775807 = .err "read-length" ∧
+    stdioReadBitsGuard true 1152921504606846976 = .err "read-length" ∧
+    stdioReadBitsGuard true 16 = .ok 16 ∧ stdioRead true 2305843009213693952 = .err "read-length" := by
+  decide
+
+/-- `.[i]` on a binary that is the range start..start+len of a reader: `b.r.Start + int64(index*b.unit)`
+    never wraps and the range read lies inside the binary's own range — for every int64 length -/
+theorem bin_index_at_in_range (bufLen start len unit i : Int) (hu : 0 < unit) (hs : 0 ≤ start) (hl : 0 ≤ len)
+    (hb : start + len ≤ bufLen) (hmax : bufLen ≤ 9223372036854775807) :
+    binIndexAt bufLen start len unit i = .ok none ∨
+    ∃ s, binIndexAt bufLen start len unit i = .ok (some (s, unit)) ∧ start ≤ s ∧ s + unit ≤ start + len :=
+  binIndexAt_in_range bufLen start len unit i hu hs hl hb hmax
+
+/-- `.[s:e]` likewise: `int64(start*b.unit)` and `int64((end-start)*b.unit)` never wrap -/
+theorem bin_slice_at_in_range (bufLen start len unit s e : Int) (hu : 0 < unit) (hs : 0 ≤ start) (hl : 0 ≤ len)
+    (hb : start + len ≤ bufLen) (hmax : bufLen ≤ 9223372036854775807) :
+    ∃ st n, binSliceAt bufLen start len unit s e = .ok (st, n) ∧ start ≤ st ∧ 0 ≤ n ∧ st + n ≤ start + len :=
+  binSliceAt_in_range bufLen start len unit s e hu hs hl hb hmax
+
+/-- the index / slice products DO wrap once the clamp is gone: 2^61 units of 8 bits are 0 bits -/
+theorem bin_index_unclamped_product_wraps :
+    goMul 2305843009213693952 8 = 0 ∧ goMul 1152921504606846976 8 = -9223372036854775808 ∧
+    goMul 2305843009213693953 8 = 8 := by decide
+
+/-- the display range of dump.go for EVERY display_bytes (it has no upper clamp; display_bytes·8
+    wraps from 2^60 on), every line_bytes the clamp lets through and every value inside a buffer:
+    no division by zero, the range that is read lies inside the buffer, the number of address lines
+    is bounded by the buffer size, the column writers get a start offset inside a line -/
+theorem dump_range_total (rootBitLen startBit sizeBits displayBytes lineBytes : Int)
+    (hlb1 : 1 ≤ lineBytes) (hlb2 : lineBytes ≤ 4096) (hs : 0 ≤ startBit) (hz : 0 ≤ sizeBits)
+    (hb : startBit + sizeBits ≤ rootBitLen) (hmax : rootBitLen ≤ 9223372036854775807) :
+    (dumpRange rootBitLen startBit sizeBits displayBytes lineBytes).noFault = true ∧
+    ∀ r, dumpRange rootBitLen startBit sizeBits displayBytes lineBytes = .ok r →
+      0 ≤ r.reqStart ∧ 0 ≤ r.reqBits ∧ r.reqStart + r.reqBits ≤ rootBitLen ∧
+      r.addrLines ≤ rootBitLen / 8 + 1 ∧ 0 ≤ r.startLineByteOffset ∧ r.startLineByteOffset < lineBytes := by
+  obtain ⟨x, hx, hx1, hx2⟩ := dumpLastDisplayBit_spec startBit sizeBits displayBytes lineBytes hlb1 hlb2 hs hz (by omega)
+  unfold dumpRange
+  simp only [hx, Outcome.bind]
+  exact dumpRangeFrom_spec rootBitLen startBit sizeBits lineBytes x hlb1 hlb2 hs hz hb hmax hx1 hx2
+
+/-- … in particular with the options of ANY option object -/
+theorem dump_range_total_options (v : JV) (rootBitLen startBit sizeBits : Int) (hs : 0 ≤ startBit) (hz : 0 ≤ sizeBits)
+    (hb : startBit + sizeBits ≤ rootBitLen) (hmax : rootBitLen ≤ 9223372036854775807) :
+    (dumpRange rootBitLen startBit sizeBits (optionsFromValue v).displayBytes (optionsFromValue v).lineBytes).noFault = true :=
+  (dump_range_total rootBitLen startBit sizeBits _ _ (options_clamped v).2.2.2.2.1 (options_clamped v).2.2.2.2.2.1
+    hs hz hb hmax).1
+
+/-- without the line_bytes clamp the same arithmetic divides by zero: line_bytes 0, and line_bytes
+    2^61 (·8 wraps to 0) -/
+theorem dump_range_unclamped_line_bytes_panics :
+    (dumpRange 800 0 800 1 0).isPanic = true ∧ (dumpRange 800 0 800 1 2305843009213693952).isPanic = true := by
+  decide
+
+/-- FOUND WHILE MODELLING (minor; no fault, so not a violation of the totality statement, replayed on
+    the real binary): display_bytes ≥ 2^60 is neither honoured nor rejected. `display_bytes: 2^61`
+    (·8 = 0) shows ONE line of a 100-byte binary where every honest reading shows all of it; with
+    display_bytes 2^60 (·8 = MinInt64) a 19-byte value that starts at byte 1 is an error
+    ("negative nBits") instead of a dump. An unbounded-integer model sees neither. -/
+theorem dump_display_bytes_wrap_not_honoured :
+    dumpRange 800 0 800 2305843009213693952 16 = .ok ⟨0, 128, 1, 0⟩ ∧
+    dumpRangeNoWrap 800 0 800 2305843009213693952 16 = .ok ⟨0, 800, 7, 0⟩ ∧
+    dumpRange 160 8 152 1152921504606846976 16 = .err "range" ∧
+    dumpRangeNoWrap 160 8 152 1152921504606846976 16 = .ok ⟨8, 152, 2, 1⟩ ∧
+    dumpRange 800 0 800 20 16 = dumpRangeNoWrap 800 0 800 20 16 := by
+  decide
+
+/-! non-vacuity of the third part -/
+
+example : (toBitsFull 21 ⟨8, 3⟩ false = .ok ⟨24, 8, 0⟩) ∧ (8 * 3 : Int) ≤ 9223372036854775807 ∧
+    toBitsFull 21 ⟨1, 16⟩ false = .ok ⟨32, 1, 0⟩ ∧ toBitsFull 21 ⟨8, 0⟩ true = .ok ⟨21, 8, 3⟩ ∧
+    toBitsFull 21 ⟨2, 0⟩ false = .err "unit-not-supported" := by decide
+example : binIndexAt 48 8 24 8 (-1) = .ok (some (24, 8)) ∧ binIndexAt 48 8 24 8 3 = .ok none ∧
+    binSliceAt 48 8 24 8 1 9223372036854775807 = .ok (16, 16) ∧ binSliceAt 48 8 29 1 (-3) 100 = .ok (34, 3) := by decide
+example : dumpRange 536 0 536 1 16 = .ok ⟨0, 128, 1, 0⟩ ∧ dumpRange 536 64 472 17 16 = .ok ⟨64, 192, 2, 8⟩ ∧
+    dumpRange 24 0 24 9223372036854775807 4096 = .ok ⟨0, 24, 1, 0⟩ ∧ dumpRange 0 0 0 0 1 = .ok ⟨0, 0, 1, 0⟩ := by decide
 
 end Props.C13
